@@ -550,6 +550,8 @@ def run_init(plan, cov, events):
   elif opt == "lda":
     from sklearn.discriminant_analysis import LinearDiscriminantAnalysis as LDA
     ref = LDA(n_components=keff).fit(D.X, y).scalings_.T[:keff]
+    if ref.shape[0] < keff:      # documented: the rest of the components are zero
+      ref = np.vstack([ref, np.zeros((keff - ref.shape[0], d))])
     if ref.shape != L.shape or rel_err(G, ref.T.dot(ref)) > 1e-8:
       raise Violation("init", sig + ",value", "init='lda' differs from scikit-learn's LDA scalings")
   elif opt == "auto":
